@@ -30,6 +30,17 @@ def generate(tier, seed):
         n = rng.below(maxn) + 1
         return "%s:%s" % (kinds[k], ",".join(str(rng.below(sizes[k])) for _ in range(n)))
 
+    def compensated():
+        """observe, then remove and add the same number of registers of one kind, then observe again"""
+        k = rng.below(4)
+        idx = [rng.below(sizes[k]) for _ in range(rng.below(5) + 2)]
+        ops = ["%s:%s" % (kinds[k], ",".join(map(str, idx))), "g"]
+        ops.append("fp:sortbelow:%d" % rng.choice([150, 205, 250, 305, 350, 1000]))
+        ops.append("g")
+        ops.append("%s:%s" % (kinds[k], ",".join(str(rng.below(sizes[k])) for _ in range(rng.below(4) + 1))))
+        ops.append("g")
+        return ops
+
     def rand_filter():
         c = rng.below(4)
         if c == 0:
@@ -39,7 +50,7 @@ def generate(tier, seed):
         return "fn:" + ",".join(rng.choice(names) for _ in range(rng.below(5)))
 
     # exhaustive short histories over a small alphabet of operations
-    small = ["aN:0,1", "aN:1,40", "aT:0,4", "aE:0,9", "aF:0,1", "aN:0", "fp:even", "fp:kind:1", "fp:sortbelow:202", "fn:ProductId", "fn:SerialNumber,OffReason", "fp:false"]
+    small = ["aN:0,1", "aN:1,40", "aT:0,4", "aE:0,9", "aF:0,1", "aN:0", "fp:even", "fp:kind:1", "fp:sortbelow:202", "fn:ProductId", "fn:SerialNumber,OffReason", "fp:false", "g"]
     maxlen = 3 if tier == "quick" else 4
     for L in range(0, maxlen + 1):
         for seq in itertools.product(small, repeat=L):
@@ -51,6 +62,15 @@ def generate(tier, seed):
         for _ in range(n):
             ops.append(rand_append(6) if rng.chance(2, 3) else rand_filter())
         lines.append(";".join(ops))
+    # histories with observations in the middle (a stale cached view would show)
+    for _ in range(400 if tier == "quick" else 4000):
+        ops = []
+        for _ in range(rng.below(4) + 1):
+            ops += compensated() if rng.chance(1, 2) else [rand_append(5), "g", rand_filter(), "g"]
+        lines.append(";".join(ops))
+    for a in range(0, 6):
+        # exactly compensated: drop one register by name, append one of the same kind, observe before and after
+        lines.append("aN:0,1,2,3,4;g;fn:ProductId;aN:%d;g;fn:ProductRevision;aN:%d;g" % (10 + a, 20 + a))
     # whole families appended, then filtered (duplicates of names and of sort keys across kinds)
     for _ in range(100 if tier == "quick" else 600):
         ops = []
@@ -93,7 +113,7 @@ def run(res, args):
         b = "0" if n == 0 else "1-4" if n <= 4 else "5-30" if n <= 30 else "31+"
         hist[b] = hist.get(b, 0) + 1
     res.cov.update(evaluations=cases, distinct_nontrivial=min(nontriv, len(set(l.split(" ", 1)[1] for l in lines))),
-                   rule="operation histories on one RegisterList: exhaustive sequences up to length %d over 12 operations, random histories up to "
+                   rule="operation histories on one RegisterList: exhaustive sequences up to length %d over 13 operations (incl. an observation of the combined view), random histories up to "
                         "length 200, whole shuffled families followed by filters; after every operation Len, at the end the four sequences and "
                         "GetRegisters are compared with the model; the combined view is also judged directly (ascending, stable, same elements); "
                         "non-trivial = non-empty final list" % (3 if res.tier == "quick" else 4),
